@@ -88,22 +88,26 @@ pub fn gen_algo_case(rng: &mut Rng, thorough: bool) -> J {
     let mut cfg = GenCfg::quick();
     cfg.max_depth = 3; cfg.max_width = 3; cfg.max_array = 3; cfg.max_map = 4;
     let d0 = if rng.chance(1, 2) { 1 } else { 0 };
-    let spec = spec::Spec(gen_spec(rng, &cfg, d0));
-    let sample_size = 1 + rng.below(3) as usize;
-    let guess = if rng.chance(1, 3) { Some(value::Value(gen_value(rng, &spec.0, &cfg))) } else { None };
-    let n_steps = if thorough { 200 + rng.below(600) } else { 40 + rng.below(120) } as usize;
-    let pool = rng.below(4);
+    // thorough tier, now and then: a LONG adaptive history on an unbounded real whose objective rewards ever larger
+    // (or ever smaller) values, so that the adaptive mutation scale drifts as far as it can (C14: scale positive and finite)
+    let long_history = thorough && rng.chance(1, 120);
+    let spec = if long_history { spec::Spec(spec::Node::Real { init: 0.0, scale: 1.0, min: None, max: None }) } else { spec::Spec(gen_spec(rng, &cfg, d0)) };
+    let sample_size = if long_history { 1 } else { 1 + rng.below(3) as usize };
+    let guess = if !long_history && rng.chance(1, 3) { Some(value::Value(gen_value(rng, &spec.0, &cfg))) } else { None };
+    let n_steps = if long_history { 60_000 } else if thorough { 200 + rng.below(600) } else { 40 + rng.below(120) } as usize;
+    let pool = if long_history { 4 + rng.below(2) } else { rng.below(4) };
     offspring_log_enable();
     let res = catch_unwind(AssertUnwindSafe(|| {
         let mut ctx = AlgoContext::new(spec.clone(), sample_size, None, guess.clone());
         let mut inflight = Vec::new();
-        let width = 1 + rng.below(4) as usize;
+        let width = if long_history { 1 } else { 1 + rng.below(4) as usize };
         for step in 0..n_steps {
             while inflight.len() < width { inflight.push(ctx.next_individual()); }
             let k = rng.below(inflight.len() as u64) as usize;
             let ind = inflight.remove(k);
-            let val = if rng.chance(1, 8) { None } else {
-                let x = match pool { 0 => rng.range(-5, 5) as f64, 1 => -(step as f64), 2 => step as f64, _ => (rng.range(-1000, 1000) as f64) * 1e297 };
+            let val = if !long_history && rng.chance(1, 8) { None } else {
+                let root = if let value::Node::Real(r) = &ind.value.0 { *r } else { 0.0 };
+                let x = match pool { 0 => rng.range(-5, 5) as f64, 1 => -(step as f64), 2 => step as f64, 4 => -(root.abs().min(1e300)), 5 => root.abs().min(1e300), _ => (rng.range(-1000, 1000) as f64) * 1e297 };
                 Some(tangram_finite::FiniteF64::new(x).unwrap())
             };
             ctx.process_individual_eval(ind, val);
@@ -131,7 +135,7 @@ pub fn gen_algo_case(rng: &mut Rng, thorough: bool) -> J {
         !(pr(r.crossover_prob) && pr(r.selection_pressure) && pr(r.mutation_prob) && r.mutation_scale.is_finite() && r.mutation_scale > 0.0)
     }).map(|(i, r)| json!({"index": i, "source": r.source, "crossoverProb": format!("{:e}", r.crossover_prob), "selectionPressure": format!("{:e}", r.selection_pressure),
                            "mutationProb": format!("{:e}", r.mutation_prob), "mutationScale": format!("{:e}", r.mutation_scale)}));
-    let mut line = json!({"mode": "ops", "inRun": true, "spec": enc_spec(&spec.0), "sampleSize": sample_size, "nRecords": recs.len(), "ops": ops, "badMeta": bad_meta,
+    let mut line = json!({"mode": "ops", "inRun": true, "spec": enc_spec(&spec.0), "sampleSize": sample_size, "nRecords": recs.len(), "ops": ops, "badMeta": bad_meta, "longHistory": long_history,
                           "init": enc_value(&guess.unwrap_or_else(|| spec.initial_value()).0)});
     if let Err(e) = res { line["runPanic"] = json!(panic_msg(e)); }
     line
